@@ -144,6 +144,10 @@ type Batch struct {
 	ChildInit func()
 	// ClassifyAbort maps a dead child (exit code, stderr) to an outcome.
 	ClassifyAbort func(exit int, stderr string) *Outcome
+	// StallAfter: a child that starts no new run for this long is stuck inside
+	// a run (0: no stall detection).  Confirmed in a second process before it is
+	// reported as a violation of class "hang".
+	StallAfter time.Duration
 	// ChildExe, when set, is the binary the children run (default: this
 	// binary).  It must know the same check and batch.
 	ChildExe string
@@ -708,7 +712,7 @@ func (ck *Check) reportIsolated(v viol, seed uint64, tier string) string {
 	reproduced := fails(tape)
 	shrinkDeadline = time.Now().Add(40 * time.Second)
 	if reproduced {
-		if v.out.Class != "child-timeout" { // every attempt on a hanging run costs a full timeout
+		if v.out.Class != "child-timeout" && v.out.Class != "hang" { // every attempt on a hanging run costs a full timeout
 			small = Shrink(tape, fails, max)
 		}
 	} else {
